@@ -327,7 +327,7 @@ func c15Gen() *rapid.Generator[c15Case] {
 		case "text", "noiter", "walk":
 			c.Branch = genBranch().Draw(t, "branch")
 		case "dryrun", "mkdir", "massive-mkdir":
-			c.Exts = genExts(f.Names()).Draw(t, "exts")
+			c.Exts = genExts(extSources(f)).Draw(t, "exts")
 		case "verify":
 			c.Strict = rapid.Bool().Draw(t, "strict")
 			c.Drop = rapid.SliceOfN(rapid.IntRange(0, f.Count()-1), 0, 3).Draw(t, "drop")
